@@ -46,6 +46,7 @@ let kind_of = function
   | "si" -> KSet | "mi" -> KMSet | "usi" -> KUSet | "umi" -> KUMSet | "pi" -> KPrio
   | "ai" -> KArr (nat_of_int 4) | "ri" -> KStdArr (nat_of_int 4) | "vs" -> KVecStr | "ti" -> KTuple
   | "bs" -> KBitset (n_of_int 16) | "vb" -> KVecBool | "ms" -> KMap
+  | "mms" -> KMMap | "ums" -> KUMap | "umms" -> KUMMap
   | k -> raise (Unsupported ("slot kind " ^ k))
 
 let ints l = "[" ^ String.concat "," (List.map (fun z -> string_of_int (int_of_z z)) l) ^ "]"
@@ -122,7 +123,13 @@ let parse_arg tok =
         CArr (Array.to_list v, O)
     | KVecStr -> CStrs (List.map (fun x -> str_of_string (unhex x)) !init)
     | KTuple -> if !have_init then raise Setup else CTuple (Z0, [], Z0, O)
-    | KMap -> if !have_init then raise Setup else CMap []
+    | KMap | KMMap | KUMap | KUMMap ->
+        (* init=<key hex>.<int>~... : the pairs as the application inserted them (extracted init_map) *)
+        let pair x = match String.index_opt x '.' with
+          | Some i -> (str_of_string (unhex (String.sub x 0 i)),
+                       z_of_int (int_of_string (String.sub x (i + 1) (String.length x - i - 1))))
+          | None -> raise (Unsupported "init pair") in
+        CMap (init_map k (List.map pair !init))
     | KBitset _ -> CBits (List.fold_left (fun acc x -> nset_add (n_of_int (int_of_string x)) acc) [] !init)
     | KVecBool ->
         (match !init with
